@@ -31,13 +31,13 @@
   `World` puts two PeerConnections back to back (what the harness runs): remote descriptions are the peer's
   last created offer / answer, and a blocked operation finishes when the peer got far enough (`envFor`).
 
-  Not modelled (outside the property's alphabet): pranswer / rollback, SetCodecPreferences and codec mismatch
+  Not modelled (outside the property's alphabet): rollback, SetCodecPreferences and codec mismatch
   (both ends register the default codecs, so no m-section is rejected), Plan-B, simulcast, Transceiver.Stop
   called by the application, GracefulClose (the queue is never closed).
 -/
 namespace WebrtcVerif.NegNeeded
 
-inductive Sig | stable | haveLocalOffer | haveRemoteOffer | closed
+inductive Sig | stable | haveLocalOffer | haveRemoteOffer | haveLocalPranswer | haveRemotePranswer | closed
   deriving DecidableEq, Repr, Inhabited
 
 inductive Dir | sendrecv | sendonly | recvonly | inactive
@@ -229,7 +229,7 @@ def afterST (pc : PC) : Option Bool → PC
 def runOp (pc : PC) : QOp → PC
   | .nn => nnOp pc
   | .st rtp =>
-    if pc.closed then afterST pc rtp                                    -- iceTransport.Start fails at once
+    if pc.closed || pc.stEntered then afterST pc rtp                    -- iceTransport.Start fails at once (closed / not new)
     else { pc with running := some (.st rtp), stEntered := true }
   | .rtp app => startRTP pc app
 
@@ -454,7 +454,7 @@ def createAnswer (pc : PC) : PC × Res :=
   | none => (pc, .err)                                                   -- ErrNoRemoteDescription
   | some r =>
     if pc.closed then (pc, .err)
-    else if pc.sig != .haveRemoteOffer then (pc, .err)                   -- ErrIncorrectSignalingState
+    else if pc.sig != .haveRemoteOffer && pc.sig != .haveLocalPranswer then (pc, .err)  -- ErrIncorrectSignalingState
     else
       match matchedSecs pc pc.trs r false with
       | none => (pc, .err)
@@ -463,13 +463,26 @@ def createAnswer (pc : PC) : PC × Res :=
 
 /-! ### setDescription -/
 
-/-- `checkNextSignalingState` for offers and answers -/
-def checkNext (cur : Sig) (isLocal isOffer : Bool) : Option Sig :=
-  match cur, isLocal, isOffer with
-  | .stable, true, true => some .haveLocalOffer
-  | .stable, false, true => some .haveRemoteOffer
-  | .haveLocalOffer, false, false => some .stable
-  | .haveRemoteOffer, true, false => some .stable
+/-- SDPType of a description handed to SetLocal/SetRemoteDescription (rollback is not modelled) -/
+inductive Ty | offer | pranswer | answer
+  deriving DecidableEq, Repr
+
+/-- the type a description is applied with: an offer is an offer; an answer's text may be applied as a
+    provisional answer (`prov`) -/
+def descTy (d : Desc) (prov : Bool) : Ty :=
+  if d.offer then .offer else if prov then .pranswer else .answer
+
+/-- `checkNextSignalingState` for offers, provisional answers and answers -/
+def checkNext (cur : Sig) (isLocal : Bool) (ty : Ty) : Option Sig :=
+  match cur, isLocal, ty with
+  | .stable, true, .offer => some .haveLocalOffer
+  | .stable, false, .offer => some .haveRemoteOffer
+  | .haveLocalOffer, false, .answer => some .stable
+  | .haveLocalOffer, false, .pranswer => some .haveRemotePranswer
+  | .haveRemotePranswer, false, .answer => some .stable
+  | .haveRemoteOffer, true, .answer => some .stable
+  | .haveRemoteOffer, true, .pranswer => some .haveLocalPranswer
+  | .haveLocalPranswer, true, .answer => some .stable
   | _, _, _ => none
 
 /-- `sd.SDP != pc.lastOffer` / `pc.lastAnswer`: before the first CreateOffer / CreateAnswer the remembered text
@@ -479,25 +492,25 @@ def matchesLast (d : Desc) : Option Desc → Bool
   | none => d.secs.isEmpty
 
 /-- the assignments to the four description slots in `setDescription` -/
-def commitDesc (pc : PC) (isLocal : Bool) (d : Desc) : PC :=
-  match isLocal, d.offer with
-  | true, true => { pc with pendLocal := some d }
-  | true, false =>
+def commitDesc (pc : PC) (isLocal : Bool) (ty : Ty) (d : Desc) : PC :=
+  match isLocal, ty with
+  | true, .answer =>
     { pc with curLocal := some d, curRemote := pc.pendRemote, pendRemote := none, pendLocal := none }
-  | false, true => { pc with pendRemote := some d }
-  | false, false =>
+  | true, _ => { pc with pendLocal := some d }                            -- offer, pranswer
+  | false, .answer =>
     { pc with curRemote := some d, curLocal := pc.pendLocal, pendRemote := none, pendLocal := none }
+  | false, _ => { pc with pendRemote := some d }                          -- offer, pranswer
 
 /-- `setDescription`; `none` = error, nothing changed -/
-def setDescription (pc : PC) (isLocal : Bool) (d : Desc) : Option PC :=
+def setDescription (pc : PC) (isLocal : Bool) (d : Desc) (prov : Bool) : Option PC :=
   if pc.closed then none
   else if isLocal && d.offer && !matchesLast d pc.lastOffer then none     -- errSDPDoesNotMatchOffer
-  else if isLocal && !d.offer && !matchesLast d pc.lastAnswer then none   -- errSDPDoesNotMatchAnswer
+  else if isLocal && !d.offer && !matchesLast d pc.lastAnswer then none   -- errSDPDoesNotMatchAnswer (answer, pranswer)
   else
-    match checkNext pc.sig isLocal d.offer with
+    match checkNext pc.sig isLocal (descTy d prov) with
     | none => none
     | some next =>
-      let pc1 := commitDesc pc isLocal d
+      let pc1 := commitDesc pc isLocal (descTy d prov) d
       if next == .stable then
         some (onNN { pc1 with sig := next, isNN := false, events := pc1.events ++ [.stable] })
       else some { pc1 with sig := next }
@@ -530,12 +543,12 @@ def startSenders : List Tr → Option (List Tr)
       else (startSenders ts).map (t :: ·)
     | none => (startSenders ts).map (t :: ·)
 
-def setLocal (pc : PC) (d : Desc) : PC × Res :=
+def setLocal (pc : PC) (d : Desc) (prov : Bool) : PC × Res :=
   if pc.closed then (pc, .err) else
-  match setDescription pc true d with
+  match setDescription pc true d prov with
   | none => (pc, .err)
   | some pc1 =>
-    if d.offer then ({ pc1 with gathered := true }, .ok)
+    if descTy d prov != .answer then ({ pc1 with gathered := true }, .ok)  -- `weAnswer` is false
     else
       match remoteDesc pc1 with
       | some r => ({ pc1 with tail := some (.localAnswer d r) }, .ok)
@@ -595,7 +608,7 @@ def applyRemoteOffer (n : Nat) : List Sec → List Nat → PC → PC
         let t : Tr := { kind := s.kind, mid := some s.mid, dir := localDir, curRemoteDir := some s.dir }
         applyRemoteOffer n rest used (addTransceiverRaw pc t)
 
-def setRemote (pc : PC) (d : Desc) : PC × Res :=
+def setRemote (pc : PC) (d : Desc) (prov : Bool) : PC × Res :=
   if pc.closed then (pc, .err) else
   let isRenegotiation := pc.curRemote.isSome
   -- what can reject the description by looking at it alone runs before setDescription: a description without
@@ -603,10 +616,12 @@ def setRemote (pc : PC) (d : Desc) : PC × Res :=
   -- ICE credentials (ErrSessionDescriptionMissingIceUfrag); pion-generated sections always have mid, ICE
   -- credentials and a fingerprint
   if d.secs.isEmpty then (pc, .err) else
-  match setDescription pc false d with
+  match setDescription pc false d prov with
   | none => (pc, .err)
   | some pc1 =>
-    if d.offer then
+    -- `weOffer := desc.Type == SDPTypeAnswer`: a provisional answer takes the path of an offer (the m-section
+    -- loop adjusts the transceivers; startTransports is enqueued when there is no current remote description)
+    if descTy d prov != .answer then
       let pc2 := applyRemoteOffer pc1.trs.length d.secs [] pc1
       if isRenegotiation then (pc2, .ok) else (enqueue pc2 (.st none), .ok)
     else ({ pc1 with tail := some (.remoteAnswer d isRenegotiation) }, .ok)
@@ -644,8 +659,8 @@ inductive Api
   | createDataChannel (openFails : Bool)
   | createOffer
   | createAnswer
-  | setLocal (d : Desc)
-  | setRemote (d : Desc)
+  | setLocal (d : Desc) (prov : Bool)
+  | setRemote (d : Desc) (prov : Bool)
   | close
   deriving Repr
 
@@ -656,8 +671,8 @@ def api (pc : PC) : Api → PC × Res
   | .createDataChannel openFails => createDataChannel pc openFails
   | .createOffer => createOffer pc
   | .createAnswer => createAnswer pc
-  | .setLocal d => setLocal pc d
-  | .setRemote d => setRemote pc d
+  | .setLocal d prov => setLocal pc d prov
+  | .setRemote d prov => setRemote pc d prov
   | .close => close pc
 
 inductive Act
@@ -735,6 +750,7 @@ inductive WApi
   | createOffer
   | createAnswer
   | setLocalOffer | setLocalAnswer | setRemoteOffer | setRemoteAnswer
+  | setLocalPranswer | setRemotePranswer  -- the last answer's text applied with type pranswer
   | close
   deriving Repr, DecidableEq
 
@@ -746,10 +762,12 @@ def WApi.toApi (x y : PC) : WApi → Option Api
   | .createDataChannel => some (.createDataChannel y.closed)
   | .createOffer => some .createOffer
   | .createAnswer => some .createAnswer
-  | .setLocalOffer => some (.setLocal (x.lastOffer.getD { offer := true, secs := [] }))
-  | .setLocalAnswer => some (.setLocal (x.lastAnswer.getD { offer := false, secs := [] }))
-  | .setRemoteOffer => some (.setRemote (y.lastOffer.getD { offer := true, secs := [] }))
-  | .setRemoteAnswer => some (.setRemote (y.lastAnswer.getD { offer := false, secs := [] }))
+  | .setLocalOffer => some (.setLocal (x.lastOffer.getD { offer := true, secs := [] }) false)
+  | .setLocalAnswer => some (.setLocal (x.lastAnswer.getD { offer := false, secs := [] }) false)
+  | .setRemoteOffer => some (.setRemote (y.lastOffer.getD { offer := true, secs := [] }) false)
+  | .setRemoteAnswer => some (.setRemote (y.lastAnswer.getD { offer := false, secs := [] }) false)
+  | .setLocalPranswer => some (.setLocal (x.lastAnswer.getD { offer := false, secs := [] }) true)
+  | .setRemotePranswer => some (.setRemote (y.lastAnswer.getD { offer := false, secs := [] }) true)
   | .close => some .close
 
 inductive WAct
